@@ -268,6 +268,34 @@ fn norm_case(r: usize, c: usize, pat: usize) -> Result<(), String> {
     let left = 2.0 * a.clone();
     let right = a.clone() * 2.0;
     ensure!(left == right, "f64 * Matrix != Matrix * f64");
+    // scalar operations over f64: every entry is the correctly rounded x op s (data where x/s != x*(1/s)),
+    // compound forms bit-identical to the binary forms
+    let sl = [49.0, 5.0, 7.0, 10.0, 3.0, 1.0, -0.3];
+    let mut b = Matrix::<f64>::new(r, c, 0.0);
+    for i in 0..r {
+        for j in 0..c {
+            b[(i, j)] = sl[(i * 3 + j + pat) % 7];
+        }
+    }
+    for sc in [3.0, 7.0, 49.0, 10.0, 0.1, -1.5] {
+        let d = &b / sc;
+        let m = &b * sc;
+        let (mut da, mut ma, mut aa, mut sa) = (b.clone(), b.clone(), b.clone(), b.clone());
+        da /= sc;
+        ma *= sc;
+        aa += sc;
+        sa -= sc;
+        ensure!(b.clone() / sc == d && b.clone() * sc == m && sc * b.clone() == m, "owned / borrowed / left scalar forms differ");
+        for i in 0..r {
+            for j in 0..c {
+                let x = b[(i, j)];
+                ensure!(d[(i, j)].to_bits() == (x / sc).to_bits(), "&A / {}: entry ({},{}) = {} expected {}", sc, i, j, d[(i, j)], x / sc);
+                ensure!(da[(i, j)].to_bits() == d[(i, j)].to_bits(), "A /= {} differs from A / {}: {} vs {}", sc, sc, da[(i, j)], d[(i, j)]);
+                ensure!(m[(i, j)].to_bits() == (x * sc).to_bits() && ma[(i, j)].to_bits() == m[(i, j)].to_bits(), "A * {} / A *= {}", sc, sc);
+                ensure!(aa[(i, j)].to_bits() == (x + sc).to_bits() && sa[(i, j)].to_bits() == (x - sc).to_bits(), "A += {} / A -= {}", sc, sc);
+            }
+        }
+    }
     Ok(())
 }
 
@@ -467,6 +495,21 @@ impl Sut for St {
         }
         self.check()
     }
+    fn warm(&self) {
+        let (r, c) = (self.m.rows(), self.m.cols());
+        let _ = catch(|| self.m.transpose());
+        let _ = catch(|| self.m.multiply(&Vector::create(vec![Rat::int(1); c])));
+        if r > 0 {
+            let _ = catch(|| self.m.get_row(r - 1));
+        }
+        if c > 0 {
+            let _ = catch(|| self.m.get_col(c - 1));
+        }
+        if r == c && r > 0 {
+            let _ = catch(|| self.m.determinant());
+            let _ = catch(|| self.m.inverse());
+        }
+    }
     fn check(&self) -> Result<(), String> {
         eq(&self.m, &self.model, self.mc, "state")?;
         // every getter agrees
@@ -587,5 +630,6 @@ fn main() {
     if ctx.quick() {
         crosscheck_stateright(&ctx, "editing histories", inits, depth);
     }
+    explore_replayed(&ctx, "clone-free editing histories on one Matrix<Rat>", vec![init(2, 3), init(3, 2), init(0, 0)], BfsOpts { max_depth: ctx.pick(4, 5), state_cap: 3_000_000 });
     std::process::exit(ctx.finish());
 }
